@@ -10,7 +10,7 @@ for k in 1 2 3; do
   echo "$id confirm: $conf"
   case "$conf" in CONFIRMED*) ;; *) echo -e "$id\t$P\trejected\t$conf" >> seeded/REJECTED.tsv; continue;; esac
   mkdir -p seeded/$id; cp $S/patch.diff $S/demo.sh seeded/$id/; cp $S/meta.json seeded/$id/meta.agent.json 2>/dev/null
-  det=$(tools/seed_detect.sh seeded/$id $P quick 2>&1 | tail -1)
+  if [ -n "${SKIP_DETECT:-}" ]; then det="pending (run tools/seed_rescan.sh)"; else det=$(tools/seed_detect.sh seeded/$id $P quick 2>&1 | tail -1); fi
   echo "$id detect(quick): $det"
   python3 - "$id" "$P" "$conf" "$det" <<'PY'
 import json,sys,os
